@@ -19,6 +19,8 @@
 (*   srcA/B : "ok" | "broken" | "missing"   file <module>.txt in the source dir *)
 (*   src2A  : "ok" | "broken" | "missing"   AA-MIB.txt in the SECOND source dir  *)
 (*   alias  : BOOLEAN                       file afile.txt (module AA-MIB) exists *)
+(*   sub    : BOOLEAN   BB-MIB.txt lies in a sub-directory of the source dir   *)
+(*            (the directory reader is recursive: no answer depends on this)   *)
 (*   imp    : "none" | "AB" | "BA" | "both" who imports whom                   *)
 (*   spell  : "exact" | "variant"  IMPORTS name the other module exactly, or by *)
 (*            a case variant (Bb-Mib for BB-MIB) that the directory reader still *)
@@ -133,7 +135,7 @@ DInitW(wd) ==
   /\ dpc = "args" /\ exitc = 255 /\ reported = FALSE /\ report = NoReport /\ idxw = FALSE
 
 DInit ==
-  \E wd \in [usage : Dom.usage, req : Dom.req, srcA : Dom.srcA, src2A : Dom.src2A, srcB : Dom.srcB, alias : Dom.alias, imp : Dom.imp, spell : Dom.spell,
+  \E wd \in [usage : Dom.usage, req : Dom.req, srcA : Dom.srcA, src2A : Dom.src2A, srcB : Dom.srcB, alias : Dom.alias, sub : Dom.sub, imp : Dom.imp, spell : Dom.spell,
              dstA : Dom.dstA, dstB : Dom.dstB, dstKind : Dom.dstKind, reqForm : Dom.reqForm, borA : Dom.borA, borB : Dom.borB, base : Dom.base,
              noDeps : Dom.noDeps, rebuild : Dom.rebuild, ignoreErrors : Dom.ignoreErrors, noWrites : Dom.noWrites,
              dryRun : Dom.dryRun, texts : Dom.texts, buildIndex : Dom.buildIndex, quiet : Dom.quiet] :
